@@ -15,6 +15,17 @@ def content(rng, w, h, kind):
     if kind == "smallsteps":   # differences around the strength thresholds
         base = rng.range(20, 230)
         return bytes(max(0, min(255, base + rng.range(-14, 14))) for _ in range(n))
+    if kind in ("rows", "cols"):   # constant along every edge: all lanes of a vector call see the same pattern
+        n2 = (h if kind == "rows" else w)
+        prof = []
+        v = rng.range(0, 255)
+        for i in range(n2):
+            if i % 8 in (7, 0, 1) or rng.below(3) == 0:
+                v = max(0, min(255, v + rng.choice([-40, -17, -8, -3, 0, 0, 3, 8, 17, 40])))
+            prof.append(v)
+        if kind == "rows":
+            return bytes(prof[y] for y in range(h) for x in range(w))
+        return bytes(prof[x] for y in range(h) for x in range(w))
     raise ValueError(kind)
 
-KINDS = ["random", "falling", "rising", "extreme", "smallsteps"]
+KINDS = ["random", "falling", "rising", "extreme", "smallsteps", "rows", "cols"]
